@@ -951,6 +951,20 @@ def scen_conflict(g, n):
                 seg = [x for sg in chain[a:b] for x in sg]
                 grp = ('g', seg + ([grp] if grp else []))
             return base + ([grp] if grp else [])
+        if r.random() < 0.12:
+            # MANY conflicts at once: four adjacent optional groups (16 expansions) against 9..13 of those routes
+            # inserted one by one as plain templates
+            segs = [[('s', b'/'), ('s', w)] for w in r.sample([b'alpha', b'beta', b'gamma', b'delta', b'a', b'b', b'm', b'x'], 4)]
+            subsets = [[segs[i] for i in range(4) if (mask >> i) & 1] for mask in range(1, 16)]
+            r.shuffle(subsets)
+            L = ['new 0']
+            d = 1
+            for sub in subsets[:r.randint(9, 13)]:
+                L.append('insert 0 %s %d' % (hx(g.render([x for sg in sub for x in sg])), d)); d += 1
+            cand = [('g', sg) for sg in segs]
+            L.append('insert 0 %s %d' % (hx(g.render(cand)), d))
+            out += L + ['end']
+            continue
         lengths = list(range(1, k + 1))
         r.shuffle(lengths)
         lives = []
